@@ -174,6 +174,25 @@ Q_SHAPES = {
             [(-1.0, -0.75), (-1.0, -1.0), (-0.75, -1.0)],
         ],
     ),
+    # cubic arcs with coincident control points (doubled handle / zero-length handle): distinct
+    # Point2D objects at the same position
+    "dblh": (
+        "ctrl",
+        [
+            [(0.0, 0.0), (2.0, -2.0), (2.0, -2.0), (4.0, 0.0)],
+            [(4.0, 0.0), (4.0, 3.0)],
+            [(4.0, 3.0), (0.0, 3.0)],
+            [(0.0, 3.0), (0.0, 0.0)],
+        ],
+    ),
+    "zeroh": (
+        "ctrl",
+        [
+            [(0.0, 0.0), (0.0, 0.0), (3.0, -3.0), (4.0, 0.0)],
+            [(4.0, 0.0), (2.0, 4.0)],
+            [(2.0, 4.0), (0.0, 0.0)],
+        ],
+    ),
     # float polygons living at the scale of the curved family
     "fsq": ("verts", [(-0.6, -0.7), (0.9, -0.65), (0.85, 0.8), (-0.55, 0.75)]),
     "ftri": ("verts", [(-1.3, -0.4), (1.4, -0.1), (0.1, 1.45)]),
